@@ -473,6 +473,7 @@ Definition with_inputs (t : tx_ops) (i : list in_op) : tx_ops :=
      t_votes := t_votes t; t_proposals := t_proposals t; t_mint := t_mint t;
      t_required_signers := t_required_signers t; t_reference_inputs := t_reference_inputs t;
      t_extra_datums := t_extra_datums t; t_dedup_explicit_refs := t_dedup_explicit_refs t |}.
+Definition mk1 (w : mint_wit) : mint_op := {| mo_wit := w; mo_asset := 0; mo_amount := 1 |}.
 Definition pw0 (s : psource) : pwit := {| pw_script := s; pw_datum := None; pw_red := 0 |}.
 
 (* a DRep script voter with a Plutus witness whose source declares signer 7, next to a key input of key 1 *)
@@ -488,12 +489,12 @@ Proof. exists w_vote. split; vm_compute; [reflexivity | lia]. Qed.
 (* a native minting policy supplied by reference input with declared signer 7: nothing was counted *)
 Definition w_mint_ref : tx_ops :=
   {| t_inputs := [InAdd 0 (OKey 1)]; t_collateral := []; t_certs := []; t_withdrawals := []; t_votes := [];
-     t_proposals := []; t_mint := [MNative (NSRef 101 1 (Some [7]))];
+     t_proposals := []; t_mint := [mk1 (MNative (NSRef 101 1 (Some [7])))];
      t_required_signers := []; t_reference_inputs := []; t_extra_datums := []; t_dedup_explicit_refs := false |}.
 (* an inline native policy over keys 5,6,7 of which the caller declared 7 as the signer: all three were counted *)
 Definition w_mint_inline : tx_ops :=
   {| t_inputs := [InAdd 0 (OKey 1)]; t_collateral := []; t_certs := []; t_withdrawals := []; t_votes := [];
-     t_proposals := []; t_mint := [MNative (NSInline 2 [5; 6; 7] (Some [7]))];
+     t_proposals := []; t_mint := [mk1 (MNative (NSInline 2 [5; 6; 7] (Some [7])))];
      t_required_signers := []; t_reference_inputs := []; t_extra_datums := []; t_dedup_explicit_refs := false |}.
 Lemma mint_original_refuted :
   (exists t, all_consistent t = true /\
@@ -622,7 +623,7 @@ Qed.
 
 Lemma ref_avail_model t r : In r (source_ref_inputs t) -> ref_available (model_emitted t) r = true.
 Proof.
-  intros H. unfold ref_available, model_emitted. cbn [e_refs e_inputs].
+  intros H. unfold ref_available, model_emitted, model_emitted_hr. cbn [e_refs e_inputs].
   destruct (memN r (body_inputs t)) eqn:E; [apply orb_true_r |].
   rewrite orb_false_r. apply memN_in. unfold body_reference_inputs. rewrite set_of_in, in_app_iff. left.
   apply filter_In. split; [exact H | rewrite E; reflexivity].
@@ -646,16 +647,16 @@ Proof.
   - destruct (HP p eq_refl) as [it Hit]. apply andb_true_iff. split; [| apply andb_true_iff; split].
     + destruct (pw_script p) as [s d | r s d] eqn:Es.
       * apply N.eqb_eq, countN_nodup; [apply set_of_nodup |].
-        unfold model_emitted, ws_plutus_scripts. cbn [e_plutus]. rewrite set_of_in, in_flat_map.
+        unfold model_emitted, model_emitted_hr, ws_plutus_scripts. cbn [e_plutus]. rewrite set_of_in, in_flat_map.
         eexists. split; [exact Hit |]. cbn [pt_wit]. rewrite Es. left. reflexivity.
       * apply ref_avail_model, HR. unfold sw_ref_inputs, sw_script_ref. rewrite Es. left. reflexivity.
     + destruct (pw_datum p) as [[d | r] |] eqn:Ed; [| | reflexivity].
       * apply N.eqb_eq, countN_nodup; [apply set_of_nodup |].
-        unfold model_emitted, ws_datums. cbn [e_datums]. rewrite set_of_in, in_app_iff, in_flat_map. left.
+        unfold model_emitted, model_emitted_hr, ws_datums. cbn [e_datums]. rewrite set_of_in, in_app_iff, in_flat_map. left.
         eexists. split; [exact Hit |]. cbn [pt_wit]. rewrite Ed. left. reflexivity.
       * apply ref_avail_model, HR. unfold sw_ref_inputs, sw_datum_ref. rewrite Ed, in_app_iff. right. left. reflexivity.
     + apply existsb_exists. exists (tag, pw_red p). split; [| cbn; rewrite !N.eqb_refl; reflexivity].
-      unfold model_emitted, ws_redeemers. cbn [e_redeemers]. apply in_map_iff.
+      unfold model_emitted, model_emitted_hr, ws_redeemers. cbn [e_redeemers]. apply in_map_iff.
       exists (tag, (it, pw_red p)). split; [reflexivity |].
       apply (dedup_by_in _ triple_eqb_spec). split; [| intros []].
       apply in_map_iff. eexists. split; [| exact Hit]. reflexivity.
@@ -690,7 +691,7 @@ Proof.
   - destruct (IH H (n + 1)) as [i Hi]. exists i. right. exact Hi.
 Qed.
 
-Lemma covered_mint t m : In m (mint_run (t_mint t)) -> covered t TAG_MINT (mint_swit m).
+Lemma covered_mint t m : In m (mint_run (mint_wits t)) -> covered t TAG_MINT (mint_swit m).
 Proof.
   intros Hi. repeat split.
   - intros s Hs. unfold ws_native_scripts. rewrite set_of_in, !in_app_iff. right. right. left.
@@ -762,7 +763,7 @@ Proof.
   intros HC. unfold scripts_available. rewrite !andb_true_iff. repeat split;
     try (apply nodupb_true, set_of_nodup).
   2: { apply forallb_forall. intros d Hd. apply N.eqb_eq, countN_nodup; [apply set_of_nodup |].
-       unfold model_emitted, ws_datums. cbn [e_datums]. rewrite set_of_in, in_app_iff. right. exact Hd. }
+       unfold model_emitted, model_emitted_hr, ws_datums. cbn [e_datums]. rewrite set_of_in, in_app_iff. right. exact Hd. }
   apply forallb_forall. intros i Hi. unfold script_items in Hi. rewrite !in_app_iff in Hi.
   destruct Hi as [Hi | [Hi | [Hi | [Hi | [Hi | Hi]]]]].
   - apply in_flat_map in Hi. destruct Hi as [[o w] [Ho Hi]]. cbn [snd] in Hi. unfold mk_items in Hi.
@@ -837,7 +838,7 @@ Proof.
   intros HC H. rewrite ib_scripts_eq in H. apply (scripts_final _ (consistent_owners_P _ HC)) in H.
   destruct H as [w [Hi [E _]]]. exact (item_of_input t o w sw None Hi E eq_refl).
 Qed.
-Lemma item_of_mint t m : In m (mint_run (t_mint t)) ->
+Lemma item_of_mint t m : In m (mint_run (mint_wits t)) ->
   In {| si_tag := TAG_MINT; si_locked := None; si_wit := mint_swit m |} (script_items t).
 Proof.
   intros H. unfold script_items. rewrite !in_app_iff. right. left. apply in_map_iff. exists m. auto.
@@ -947,16 +948,36 @@ Proof.
     apply (G E). cbn. rewrite Es. exact (plutus_emitted_inline t s HC HP Hn).
 Qed.
 
-(* the extracted judge accepts what the model builds, inside the premises and outside the known classes *)
-Theorem judge_accepts_model tb t :
+Lemma forallb_self_pairs (l : list (N * N)) :
+  forallb (fun x => existsb (fun y => N.eqb (fst x) (fst y) && N.eqb (snd x) (snd y)) l) l = true.
+Proof.
+  apply forallb_forall. intros x Hx. apply existsb_exists. exists x. split; [exact Hx |]. rewrite !N.eqb_refl. reflexivity.
+Qed.
+Lemma mint_policies_model hr t : mint_policies_ok t (model_emitted_hr hr t) = true.
+Proof.
+  unfold mint_policies_ok. apply forallb_forall. intros m Hm. apply memN_in. cbn [model_emitted_hr e_mint].
+  unfold body_mint_policies. apply in_map. exact Hm.
+Qed.
+(* the clauses about scripts do not look at the two new fields *)
+Lemma scripts_available_hr hr t : scripts_available t (model_emitted_hr hr t) = scripts_available t (model_emitted t).
+Proof. reflexivity. Qed.
+Lemma scripts_not_twice_hr hr t : scripts_not_twice t (model_emitted_hr hr t) = scripts_not_twice t (model_emitted t).
+Proof. reflexivity. Qed.
+
+(* the extracted judge accepts what the model builds, inside the premises and outside the known classes, whatever
+   the byte order of the credential hashes *)
+Theorem judge_accepts_model hr tb t :
   wits_match t = true -> all_consistent t = true -> collateral_plain t = true -> no_mixed_supply t = true ->
   known_genesis t = false ->
-  judge t {| o_predicted := predicted_sig_bytes tb t; o_signed := signed_sig_bytes tb t; o_emitted := model_emitted t |} = Holds.
+  judge_hr hr t {| o_predicted := predicted_sig_bytes tb t; o_signed := signed_sig_bytes tb t; o_emitted := model_emitted_hr hr t |} = Holds.
 Proof.
-  intros HW HC HP HM HG. unfold judge. rewrite HW. cbn [negb].
+  intros HW HC HP HM HG. unfold judge_hr. rewrite HW. cbn [negb].
   assert (HI : consistent_owners (t_inputs t) = true) by (unfold all_consistent in HC; apply andb_true_iff in HC; tauto).
-  assert (S : size_clause {| o_predicted := predicted_sig_bytes tb t; o_signed := signed_sig_bytes tb t; o_emitted := model_emitted t |} = true).
+  assert (S : size_clause {| o_predicted := predicted_sig_bytes tb t; o_signed := signed_sig_bytes tb t; o_emitted := model_emitted_hr hr t |} = true).
   { unfold size_clause. cbn [o_predicted o_signed]. rewrite (size_exact tb t HC HG), vkey_witness_size_101.
     apply andb_true_iff. split; [apply N.leb_le | apply N.ltb_lt]; lia. }
-  rewrite S. cbn [o_emitted]. rewrite (scripts_available_model t HI), (scripts_not_twice_model t HI HP HM). reflexivity.
+  rewrite S. cbn [o_emitted].
+  rewrite scripts_available_hr, (scripts_available_model t HI), scripts_not_twice_hr, (scripts_not_twice_model t HI HP HM).
+  rewrite mint_policies_model. unfold vote_redeemers_ok. cbn [model_emitted_hr e_vote_redeemers]. rewrite forallb_self_pairs.
+  reflexivity.
 Qed.
